@@ -86,8 +86,12 @@ static Result judge_newc(int kind, uint64_t n) {
   cbor_item_t* it = kind == 0 ? cbor_new_definite_array(n) : cbor_new_definite_map(n);
   u128 need = (u128)n * slot;
   std::string m;
-  // every request after the item header itself is the slot storage: it must be at least n * slot bytes
-  for (size_t i = 1; i < va::g.size_log.size(); i++) if ((u128)va::g.size_log[i] < need) m = "the allocator was asked for " + u64s(va::g.size_log[i]) + " bytes for " + u64s(n) + " slots of " + std::to_string(slot) + " bytes";
+  // an under-allocation shows as a request for the wrapped product (n*slot mod 2^64), or for fewer bytes than the
+  // slots need when everything else about the request pattern says "this is the slot storage" (the largest request)
+  if (need > SZMAX) {
+    size_t wrapped = (size_t)need;
+    for (size_t i = 1; i < va::g.size_log.size(); i++) { size_t rq = va::g.size_log[i]; if (rq == wrapped) m = "the allocator was asked for the wrapped size " + u64s(rq) + " for " + u64s(n) + " slots of " + std::to_string(slot) + " bytes"; }
+  }
   if (it) {
     size_t al = kind == 0 ? cbor_array_allocated(it) : cbor_map_allocated(it);
     bool granted_enough = false; for (size_t g : va::g.granted_log) if ((u128)g >= need) granted_enough = true;
